@@ -30,6 +30,21 @@ def jobs(seed=0):
                          cbmc_flags=["--unwind", str(2 * mm + 3), "--unwinding-assertions", "--object-bits", "10"],
                          functions=["reim4_from_cplx_" + nm, "reim4_to_cplx_" + nm, "init_reim4_from_cplx_precomp", "init_reim4_to_cplx_precomp"],
                          timeout=900, bound_note="m=%d complex numbers, all data" % mm))
+    R4 = ["reim4/reim4_arithmetic_ref.c"]
+    RP = [("reim4_zero", "reim4_zero__c"), ("reim4_add_mul", "reim4_add_mul__c")]
+    J.append(Job(name="reim4.vec_mat1col_product_ref", props=["C17", "C11", "C18", "C15"], shape="S1", sources=R4, harness="reim4_prod.c", entry="h_mat1col",
+                 enforce=[("reim4_vec_mat1col_product_ref", "mat1col__c")], replace=RP,
+                 loops={"reim4_vec_mat1col_product_ref": {"count": 1, "loops": [{"id": 0, "assigns": "i, j, __CPROVER_object_upto(dst, 64)", "invariants": "i <= nrows && j == 8 * i", "decreases": "nrows - i"}]}},
+                 functions=["reim4_vec_mat1col_product_ref"], timeout=600, bound_note="every nrows <= 100000; leaf kernels replaced by assumed frames"))
+    J.append(Job(name="reim4.vec_mat2cols_product_ref", props=["C17", "C11", "C18", "C15"], shape="S1", sources=R4, harness="reim4_prod.c", entry="h_mat2cols",
+                 enforce=[("reim4_vec_mat2cols_product_ref", "mat2cols__c")], replace=RP,
+                 loops={"reim4_vec_mat2cols_product_ref": {"count": 1, "loops": [{"id": 0, "assigns": "i, j, __CPROVER_object_upto(dst, 128)", "invariants": "i <= nrows && j == 8 * i", "decreases": "nrows - i"}]}},
+                 functions=["reim4_vec_mat2cols_product_ref"], timeout=600, bound_note="every nrows <= 100000"))
+    J.append(Job(name="reim4.convolution_1coeff_ref", props=["C17", "C11", "C18", "C15"], shape="S1", sources=R4, harness="reim4_prod.c", entry="h_conv1",
+                 enforce=[("reim4_convolution_1coeff_ref", "conv1__c")], replace=RP,
+                 loops={"reim4_convolution_1coeff_ref": {"count": 1, "loops": [{"id": 0, "assigns": "j, __CPROVER_object_upto(dest, 64)",
+                        "invariants": "jmin <= j && j <= jmax && jmax <= sizeb && jmax <= k + 1 && k < jmin + sizea", "decreases": "jmax - j"}]}},
+                 functions=["reim4_convolution_1coeff_ref"], timeout=600, bound_note="every k, sizea, sizeb <= 100000: window bounds jmin/jmax keep a + 8(k-j) and b + 8j inside the operands"))
     # fftvec_jobs() (contracts/fftvec.c) are NOT registered: every run timed out on both SAT back ends -- equality of two
     # IEEE-754 multiplier circuits, even at m=1 (DESIGN 5/C17, 5/C13: pointwise products not covered)
     return J
